@@ -161,10 +161,15 @@ def run_case(case):
     elif ro != eo:
         unordered = case["kind"] == "gen" and case["gen"].get("unordered")
         if case["kind"] in ("corpus", "testsrc"):
-            env2 = copy.deepcopy(env)
-            env2["plans"][0] = {"seed": "a5" * 16, "rules": []}
-            r2 = pipeline.leg_run(files, entry, env2, 0)[0]
-            unordered = pipeline.norm_out(r2["out"]) != ro
+            # (several other seeds: two seeds can give the same iteration order by chance)
+            unordered = False
+            for alt in ("a5", "3c", "e7", "19"):
+                env2 = copy.deepcopy(env)
+                env2["plans"][0] = {"seed": alt * 16, "rules": []}
+                r2 = pipeline.leg_run(files, entry, env2, 0)[0]
+                if pipeline.norm_out(r2["out"]) != ro:
+                    unordered = True
+                    break
         if not unordered or pipeline.canon(ro) != pipeline.canon(eo):
             return fail("stdout-differs", "`run` and the transpiled program printed different output")
     if case.get("same_seed") and r.get("dump") is not None and e.get("dump") is not None and r["rc"] == 0:
